@@ -95,15 +95,20 @@ type estAPI struct {
 	bisect   func(count int, p1First bool) float64 // returns the segment parameter (a = 0, b = 1) of the result
 	interior func(count int, p1First bool) float64
 	offLine  func(count int, p1First bool) float64 // distance of Bisect's result from the segment's line / length
+	// the solid's own answer at p1 + (p2-p1)*alpha, the point the estimator's contract speaks about (formed the way
+	// the estimator forms it, so that it is the very point that was tested)
+	containsAt func(p1First bool, alpha float64) bool
 }
 
 func estimatorStage(r *ev.Run, full bool) {
-	counts := []int{0, 1, 2, 3, 5, 11}
+	// 56 and 64 halvings go below the spacing of the floating-point numbers: the range cannot shrink any further,
+	// but its ends must still be the points that were tested (the upper one contained, the lower one excluded)
+	counts := []int{0, 1, 2, 3, 5, 11, 56, 64}
 	segs3 := [][2]c3{{model3d.XYZ(0, 0, 0), model3d.XYZ(1, 0, 0)}, {model3d.XYZ(0.3, -0.2, 0.9), model3d.XYZ(-1.1, 0.4, 0.2)}, {model3d.XYZ(5, 5, 5), model3d.XYZ(5, 5, 5.001)},
 		{model3d.XYZ(-100, 40, 3), model3d.XYZ(260, -17, 80)}}
 	segs2 := [][2]model2d.Coord{{model2d.XY(0, 0), model2d.XY(0, 1)}, {model2d.XY(0.3, -0.2), model2d.XY(-1.1, 0.4)}, {model2d.XY(5, 5), model2d.XY(5.001, 5)}, {model2d.XY(-100, 40), model2d.XY(260, -17)}}
 	if !full {
-		counts = []int{0, 1, 3, 11}
+		counts = []int{0, 1, 3, 11, 56}
 	}
 	var nt int
 	for dim := 3; dim >= 2; dim-- {
@@ -140,6 +145,10 @@ func estimatorStage(r *ev.Run, full bool) {
 							sg := model3d.NewSegment(a, b)
 							return sg.Dist(x) / a.Dist(b)
 						},
+						containsAt: func(f bool, alpha float64) bool {
+							p1, p2 := ends(f)
+							return ps.Contains(p1.Add(p2.Sub(p1).Scale(alpha)))
+						},
 					}
 					seg = []float64{a.X, a.Y, a.Z, b.X, b.Y, b.Z}
 				} else {
@@ -171,6 +180,10 @@ func estimatorStage(r *ev.Run, full bool) {
 							sg := model2d.Segment{a, b}
 							return sg.Dist(x) / a.Dist(b)
 						},
+						containsAt: func(f bool, alpha float64) bool {
+							p1, p2 := ends(f)
+							return ps.Contains(p1.Add(p2.Sub(p1).Scale(alpha)))
+						},
 					}
 					seg = []float64{a.X, a.Y, b.X, b.Y}
 				}
@@ -187,29 +200,28 @@ func estimatorStage(r *ev.Run, full bool) {
 							r.Violation(fmt.Sprintf("estimator%dd/%s", dim, kind), fmt.Sprintf("pattern %07b count %d swapped=%v: %s", pattern, count, !first, msg), c)
 						}
 						r.Eval(1)
-						// parameter of the oriented segment -> parameter of a..b
-						ab := func(al float64) float64 {
-							if first {
-								return al
-							}
-							return 1 - al
-						}
 						p1In, p2In := in0, in1
 						if !first {
 							p1In, p2In = in1, in0
 						}
 						// range on the full segment and on a sub-range
 						for _, mm := range [][2]float64{{0, 1}, {0.25, 1}, {0, 0.6}} {
-							loIn, hiIn := patAt(pattern, ab(mm[0])), patAt(pattern, ab(mm[1]))
+							loIn, hiIn := api.containsAt(first, mm[0]), api.containsAt(first, mm[1])
 							lo, hi := api.rng(count, first, mm[0], mm[1])
-							if !(math.Abs((hi-lo)-(mm[1]-mm[0])*w) <= 1e-12*w+1e-15) || !(lo >= mm[0] && hi <= mm[1]) {
+							if n > 45 {
+								// below the resolution of the parameter: only "inside the given range, not wider than one step"
+								if !(lo >= mm[0] && hi <= mm[1] && hi-lo <= 4e-16) {
+									viol("range-width", fmt.Sprintf("BisectInterpRange(%g,%g) = (%g,%g) after %d halvings", mm[0], mm[1], lo, hi, n))
+									continue
+								}
+							} else if !(math.Abs((hi-lo)-(mm[1]-mm[0])*w) <= 1e-12*w+1e-15) || !(lo >= mm[0] && hi <= mm[1]) {
 								viol("range-width", fmt.Sprintf("BisectInterpRange(%g,%g) = (%g,%g): width is not (max-min)/2^%d inside the given range", mm[0], mm[1], lo, hi, n))
 								continue
 							}
-							if hiIn && !patAt(pattern, ab(hi)) {
+							if hiIn && !api.containsAt(first, hi) {
 								viol("range-upper-end-not-contained", fmt.Sprintf("BisectInterpRange(%g,%g) = (%g,%g): the given upper end is contained, the returned one is not", mm[0], mm[1], lo, hi))
 							}
-							if !loIn && patAt(pattern, ab(lo)) {
+							if !loIn && api.containsAt(first, lo) {
 								viol("range-lower-end-contained", fmt.Sprintf("BisectInterpRange(%g,%g) = (%g,%g): the given lower end is excluded, the returned one is contained", mm[0], mm[1], lo, hi))
 							}
 							if got := api.interp(count, first, mm[0], mm[1]); !(math.Abs(got-(lo+hi)/2) <= 1e-15) {
